@@ -330,10 +330,10 @@ class TagsRun:
                         multi_set_cloud = True
                         break
             if multi_set_cloud:
-                # a cloud that supports two phase sets equally is assigned by a tie-break over a set of Read objects
-                # (hashed by address): not comparable between two runs, and outside what C17 states
-                self.stats.inc("retag_not_compared_multi_set_cloud")
-            elif tags1 != tags2:
+                # (until fix 489f1fa the tie-break of such a cloud ran over a set of Read objects hashed by address and
+                # the two runs could differ; they are compared again now)
+                self.stats.inc("retag_with_multi_set_cloud")
+            if tags1 != tags2:
                 k = sorted(set(tags1) | set(tags2))
                 dk = [x for x in k if tags1.get(x) != tags2.get(x)][0]
                 self.add("retag-differs", "haplotagging the tagged BAM again changed the tags of read %s from %r to %r" % (dk, tags1.get(dk), tags2.get(dk)), "retag-differs")
